@@ -47,6 +47,7 @@ func main() {
 		noEvid   = flag.Bool("noevidence", false, "do not write the evidence file")
 		replayF  = flag.String("replay", "", "replay one counterexample file natively and exit")
 		cpuProf  = flag.String("cpuprofile", "", "write a CPU profile")
+		xcheck   = flag.Int("xcheck", -1, "re-discharge one obligation in N (by hash) on z3 5.1 and cvc5; 0 = none; default 256 (quick), 16 (thorough)")
 		updBase  = flag.Bool("update-baseline", false, "record the assertions reached per harness as the reachability baseline (vacuity guard)")
 	)
 	flag.Parse()
@@ -87,12 +88,17 @@ func main() {
 		cfg.Tier = 1
 		cfg.Witnesses = 6
 		cfg.Deadline = time.Now().Add(40 * time.Minute)
+		cfg.xcheckEvery = 16
 	} else {
 		cfg.Witnesses = 2
+		cfg.xcheckEvery = 256
 		cfg.Deadline = time.Now().Add(8 * time.Minute)
 	}
 	if *budget > 0 {
 		cfg.Deadline = time.Now().Add(*budget)
+	}
+	if *xcheck >= 0 {
+		cfg.xcheckEvery = *xcheck
 	}
 	tierGlobal = cfg.Tier
 	solverDeadline = cfg.Deadline.Add(30 * time.Second).Unix()
@@ -187,6 +193,9 @@ func main() {
 		json.Unmarshal(bz, &baseline)
 	}
 	newBase := map[string][]string{}
+	outDir := filepath.Join(*verif, "out", *prop)
+	os.RemoveAll(outDir)
+	os.MkdirAll(outDir, 0o755)
 	total := newStats()
 	var inconclusive []string
 	var viols, wits []Violation
@@ -196,10 +205,15 @@ func main() {
 		for _, s := range hr.Inconclusive {
 			inconclusive = append(inconclusive, n+": "+s)
 		}
+		for i, d := range hr.Stats.XDisagree {
+			f := filepath.Join(outDir, fmt.Sprintf("solver_disagreement_%s_%d.smt2", n, i))
+			os.WriteFile(f, []byte("; "+strings.Replace(d, "\n", "\n", 1)), 0o644)
+			inconclusive = append(inconclusive, n+": SOLVER-DISAGREEMENT: "+strings.SplitN(d, "\n", 2)[0]+" (query in "+f+")")
+		}
 		// vacuity guards: every assertion written in the harness was reached on some feasible path,
 		// and some path ran to the end
 		for _, c := range baseline[n] {
-			if hr.Stats.Asserts[n+"/"+c] == 0 {
+			if hr.Stats.Asserts[n+"/"+c] == 0 && !*updBase {
 				inconclusive = append(inconclusive, fmt.Sprintf("%s: assertion %q not reached on any feasible path (vacuous; it is reached on the reference tree)", n, c))
 			}
 		}
@@ -274,9 +288,6 @@ func main() {
 		gkeys = append(gkeys, k)
 	}
 	sort.Strings(gkeys)
-	outDir := filepath.Join(*verif, "out", *prop)
-	os.RemoveAll(outDir)
-	os.MkdirAll(outDir, 0o755)
 	var files []string
 	for i, k := range gkeys {
 		g := groups[k]
@@ -439,6 +450,10 @@ func main() {
 			"obligations_unsat":             total.Unsat,
 			"obligations_sat":               total.Sat,
 			"solver_unknown":                total.Unknown,
+			"cross_checked_obligations":     total.XChecked,
+			"cross_check_second_opinions":   total.XOpinions,
+			"cross_check_disagreements":     len(total.XDisagree),
+			"cross_check_solvers":           "z3-new -in -t:3000; cvc5 --incremental --tlimit-per=3000 (sample: one distinct obligation in " + fmt.Sprint(cfg.xcheckEvery) + " by hash)",
 			"solver_queries":                total.Queries,
 			"solver":                        strings.Join(cfg.SolverCmd, " "),
 			"solver_s":                      total.SolverTime.Seconds(),
@@ -465,8 +480,8 @@ func main() {
 		os.MkdirAll(filepath.Join(*verif, "evidence"), 0o755)
 		os.WriteFile(filepath.Join(*verif, "evidence", *prop+".json"), js, 0o644)
 	}
-	fmt.Printf("%s %s: harnesses=%d paths=%d obligations=%d (unsat=%d sat=%d) queries=%d solver=%.1fs native-validated=%d wall=%.1fs exit=%d\n",
-		*prop, *tier, len(names), total.Paths, total.Obligations, total.Unsat, total.Sat, total.Queries, total.SolverTime.Seconds(), replayed+witnessOK, wall, exit)
+	fmt.Printf("%s %s: harnesses=%d paths=%d obligations=%d (unsat=%d sat=%d) queries=%d solver=%.1fs xcheck=%d/%d/%d native-validated=%d wall=%.1fs exit=%d\n",
+		*prop, *tier, len(names), total.Paths, total.Obligations, total.Unsat, total.Sat, total.Queries, total.SolverTime.Seconds(), total.XChecked, total.XOpinions, len(total.XDisagree), replayed+witnessOK, wall, exit)
 	pprof.StopCPUProfile()
 	os.Exit(exit)
 }
